@@ -3,6 +3,7 @@
 #pragma once
 #include "constant_readout.hh"
 #include "au/math.hh"
+#include "au/units/meters.hh"
 #include <cmath>
 #include <utility>
 #include <vector>
@@ -112,5 +113,31 @@ template <typename U1, typename U2, typename F> void wrappers(uint64_t seed) {
         if (!ok) { ++bad; if (bad <= 20) std::printf("{\"k\":\"mathmis\",\"what\":\"cmath wrapper\",\"R\":\"%s\",\"x\":%s,\"y\":%s}\n", rep_name<F>(), fwire(x).c_str(), fwire(y).c_str()); }
     }
     std::printf("{\"k\":\"mathsum\",\"what\":\"wrappers\",\"n\":%lld,\"bad\":%lld}\n", n, bad);
+}
+template <bool Signed> struct AbsCheck {
+    template <typename R> static bool ok(R x) { auto r = abs(meters(x)); return std::is_same<typename decltype(r)::Rep, decltype(std::abs(x))>::value && (i128)r.in(meters) == (i128)std::abs(x); }
+};
+template <> struct AbsCheck<false> { template <typename R> static bool ok(R) { return true; } };
+// integral reps through the wrappers that accept them: the std function on the stored value, in the std function's own result type
+template <typename R> void int_wrappers() {
+    long long n = 0, bad = 0;
+    const long long lo = (long long)std::numeric_limits<R>::lowest(), hi = (long long)std::numeric_limits<R>::max();
+    std::vector<long long> vals;
+    if (sizeof(R) <= 2) for (long long v = lo; v <= hi; ++v) vals.push_back(v);
+    else { long long pts[] = {lo, lo + 1, -65536, -32769, -32768, -129, -128, -2, -1, 0, 1, 2, 127, 128, 32767, 32768, 65535, 65536, hi - 1, hi}; for (long long p : pts) if (p >= lo && p <= hi) vals.push_back(p); }
+    for (long long v : vals) {
+        R x = (R)v; auto a = meters(x);
+        ++n;
+        bool ok = true;
+        if (!(sizeof(R) >= 4 && v == lo)) ok = ok && AbsCheck<std::is_signed<R>::value>::ok(x);            // std::abs(INT_MIN) is undefined
+        R y = (R)((v % 7) + 1);
+        auto b = meters(y);
+        ok = ok && (i128)min(a, b).in(meters) == (i128)std::min(x, y) && (i128)max(a, b).in(meters) == (i128)std::max(x, y) && std::is_same<typename decltype(min(a, b))::Rep, R>::value;
+        ok = ok && (i128)clamp(a, b, b).in(meters) == (i128)y && std::is_same<typename decltype(clamp(a, b, b))::Rep, R>::value;
+        ok = ok && beq(fmod(a, b).in(meters), std::fmod(x, y)) && beq(remainder(a, b).in(meters), std::remainder(x, y)) && beq(hypot(a, b).in(meters), std::hypot(x, y));
+        ok = ok && beq(copysign(a, b).in(meters), std::copysign(x, y));
+        if (!ok) { ++bad; if (bad <= 20) std::printf("{\"k\":\"mathmis\",\"what\":\"integral rep through abs/min/max/clamp/fmod/remainder/hypot/copysign\",\"R\":\"%s\",\"x\":%s,\"y\":%s}\n", rep_name<R>(), fwire((long double)x).c_str(), fwire((long double)y).c_str()); }
+    }
+    std::printf("{\"k\":\"mathsum\",\"what\":\"int wrappers\",\"n\":%lld,\"bad\":%lld}\n", n, bad);
 }
 }  // namespace auv
